@@ -789,7 +789,8 @@ Definition f0 := trim_right (q_path q).
 Definition under (r : rule) : bool := rule_matches cs r (q_path q) && allowed cs r (q_path q).
 (* an existing file with the rule's extension, in any letter case, under the rule's path *)
 Definition ext_file (r : rule) : bool :=
-  under r && tbl stat_tbl f0 && negb (beq (r_ext r) []) && has_suffix (to_lower f0) (to_lower (r_ext r)).
+  under r && (tbl stat_tbl f0 || tbl open_tbl f0) &&      (* exists for os.Stat or for the static file server *)
+  negb (beq (r_ext r) []) && has_suffix (to_lower f0) (to_lower (r_ext r)).
 Definition spec_dispatch (obs : sobs) : bool :=
   if existsb ext_file rules then sobs_class obs =? 3 else negb (sobs_class obs =? 2).
 
@@ -842,5 +843,5 @@ Definition judge (c : case) : N :=
   | CServe cs sv rules stat_tbl open_tbl q qbody0 rs obs =>
       let qbody := expand qbody0 in
       verdict (serve_agree cs sv rules stat_tbl open_tbl q qbody rs obs)
-              (spec_dispatch cs rules stat_tbl q obs && spec_io cs sv rules open_tbl q qbody rs obs)
+              (spec_dispatch cs rules stat_tbl open_tbl q obs && spec_io cs sv rules open_tbl q qbody rs obs)
   end.
